@@ -28,7 +28,19 @@ import (
 
 func init() {
 	register(Meta{ID: "C32", Level: "exploration", BudgetQuick: 150, BudgetThor: 1200, GoMaxProcs: 2},
-		func(t *testing.T, c *vcore.Ctx) { remapEnum(c) })
+		func(t *testing.T, c *vcore.Ctx) {
+			if c.Replay != nil {
+				var rc c32Case
+				if jsonUnmarshal(c.Replay, &rc) == nil && len(rc.World) > 0 {
+					c32World(t, c, &rc)
+					return
+				}
+			}
+			remapEnum(c)
+			if c.Replay == nil {
+				c32World(t, c, nil)
+			}
+		})
 }
 
 type c32Case struct {
@@ -40,6 +52,7 @@ type c32Case struct {
 	R1    float64  `json:"r1,omitempty"` // history: first bound request
 	R2    float64  `json:"r2,omitempty"` // history: second bound request
 	Order int      `json:"release_order,omitempty"`
+	World []wOp    `json:"cluster_history,omitempty"` // part C (c32c_world.go)
 }
 
 const c32MergeReps = 48
@@ -150,6 +163,7 @@ func remapEnum(c *vcore.Ctx) {
 	c.Assume("the order in which the manager merges the answers of two plugins is Go map iteration order, which the harness cannot choose: the two-plugin call is repeated 48 times per case instead of being enumerated over both orders")
 	c.SetRule("A: every node of k cores, per core (capacity, free) with capacity {1,2} cores and free {0,.3,1,2} cores (free <= capacity), share base {100,10} x every multiset of <= 3 resident workloads over {U0 unbound no limits, U1 unbound cpu .5 mem 30, U2 unbound cpu-limit 2, B1 bound to core 0, B2 bound to .3 of the last core}: Plugin.CalculateRemap, Manager.Remap, and Manager.Remap of a manager with cpumem plus a second plugin that answers for every workload (repeated 48 times: the merge order is Go map order); " +
 		"B: histories on the same nodes (k <= 2 quick, <= 3 thorough) with two resident unbound workloads allocated through Manager.Alloc: alloc bound r1 -> remap -> alloc bound r2 -> remap -> release one -> remap -> release the other -> remap, r1,r2 in {.5,1,1.2,2}, both release orders, Manager.Remap checked after every step; " +
+		"C: the push - real cluster API histories on a 4-core node with two resident unbound workloads, every sequence up to depth 3 (thorough 4) over {create bound 1 / bound .5, remove / dissociate / realloc +cpu / unbind of a bound workload, bind of an unbound one}; after each operation the fake engine's containers of all unbound workloads must carry the share pool derived from the recorded usage, bound workloads the operation did not target must not have been updated; " +
 		"oracle: every unbound workload's engine cpu set = {cores with free >= share base} (all cores when empty), bound workloads absent; non-trivial = a remap call with at least one unbound workload (A: distinct by config,node,mix; B: by config,node,r1,r2,order,step)")
 	envs := penvCache{}
 	defer envs.close()
